@@ -158,6 +158,36 @@ def _pts(ctx, name, n):
     return [[ctx.num('%s%dx' % (name, i)), ctx.num('%s%dy' % (name, i))] for i in range(n)]
 
 
+@scenario('C20', fns=['linalg.is_left', 'linalg.wn_poly'], quick=[dict(scale=10), dict(scale=10 ** 8)],
+          # integer coordinates are exact in Python (arbitrary precision): the same contract at run time on the real ints
+          native=lambda tier: [dict(scale=10 ** 8), dict(scale=10 ** 11)])
+def is_left_integer_grid(ctx, scale):
+    """requires: points with (large) integer coordinates, handed over as Python ints
+       ensures : the sign of is_left is the sign of the exact determinant, and wn_poly classifies the query points next
+                 to a long edge as exact rational arithmetic does"""
+    la = ctx.geomdl('linalg')
+    num = (lambda v: v) if ctx.mode == 'float' else ctx.lit          # native runs: real ints, not floats
+    sgn = lambda v: (v > 0) - (v < 0)
+    k = scale
+    cases = [((0, 0), (2 * k + 2, 2 * k), (k + 2, k + 1)), ((0, 0), (2 * k + 2, 2 * k), (k, k)), ((0, 0), (2 * k + 2, 2 * k), (k + 1, k)),
+             ((3, -k), (3 * k + 1, 2 * k + 5), (k + 2, 1)), ((-k, -k), (k + 1, k), (1, 0))]
+    for n, (p0, p1, p2) in enumerate(cases):
+        exact = (p1[0] - p0[0]) * (p2[1] - p0[1]) - (p2[0] - p0[0]) * (p1[1] - p0[1])
+        got = la.is_left([num(c) for c in p0], [num(c) for c in p1], [num(c) for c in p2])
+        ctx.check_true('is_left.sign[%d]' % n, sgn(got) == sgn(exact), 'is_left(%r, %r, %r) = %r, exact determinant %r' % (p0, p1, p2, got, exact))
+    # a thin triangle: query points one grid step inside / outside its long edge
+    tri = [(0, 0), (2 * k + 2, 2 * k), (0, 2 * k)]
+    poly = [[num(c) for c in q] for q in tri + tri[:1]]
+    det = lambda a, b, c: (b[0] - a[0]) * (c[1] - a[1]) - (c[0] - a[0]) * (b[1] - a[1])
+    for n, q in enumerate(((k, k), (k + 2, k + 1), (k + 1, k + 1), (k + 2, k), (k + 3, k + 2), (2 * k, 2 * k - 2), (2 * k - 1, 2 * k - 2))):
+        signs = [sgn(det(tri[i], tri[(i + 1) % 3], q)) for i in range(3)]
+        if 0 in signs:
+            continue                      # on the boundary: not classified by the statement
+        inside = signs[0] == signs[1] == signs[2]
+        got = la.wn_poly([num(c) for c in q], poly)
+        ctx.check_true('wn_poly.next_to_long_edge[%d]' % n, bool(got) == inside, 'wn_poly(%r) = %r, exact: inside=%r' % (q, got, inside))
+
+
 @scenario('C20', fns=['linalg.is_left'], quick=[dict()])
 def is_left(ctx):
     """ensures: is_left(p0, p1, p2) = twice the signed area of (p0, p1, p2) = determinant |p1-p0, p2-p0|; antisymmetric
